@@ -409,7 +409,12 @@ def gen_program(rng):
         files[name] = "\n".join(L) + "\n"
         units.append(name)
     runs = [str(rng.choice([0, 1, 2, 3, 5, 8, 13])) for _ in range(rng.randrange(0, 4))]
-    return {"files": files, "units": units, "runs": runs, "pair_line": pair}
+    # stale units: recompiled (after a source change) once the program has run, without running it again: their .gcda no
+    # longer matches the .gcno, gcov fails on them ("stamp mismatch") although it still writes its output file
+    stale = []
+    if runs and rng.random() < 0.35:
+        stale = rng.sample(units, min(len(units), rng.choice([1, 1, 2])))
+    return {"files": files, "units": units, "runs": runs, "pair_line": pair, "stale": stale}
 
 
 # ----------------------------------------------------------------------------
